@@ -12,7 +12,7 @@ from ..core.seeds import rng_for, verif_seed
 from ..ragsim import gen, schedule
 from ..ragsim.case import (make_case, side, evaluate, div_class, explained_by_stale_alias, pretty,
                            hazard_info, neutralise_text)
-from ..ragsim.execute import run, first_divergence, step_dsts
+from ..ragsim.execute import run, first_divergence, step_dsts, step_reads
 from ..ragsim.minimise import minimise
 from ..ragsim.syntax import analyse
 
@@ -42,6 +42,17 @@ def sched_sig(s):
         else:
             parts.append(a["k"])
     return ",".join(parts)
+
+
+def schedule_touches_pending(s, lay):
+    if s.get("eager"):
+        return bool(lay.sel_vars)
+    for gap, a in s.get("acts", []):
+        targets = step_reads(a["step"]) if a["k"] == "obs" else [a["v"]]
+        pend = lay.pending_at(gap)
+        if any(t in pend for t in targets):
+            return True
+    return False
 
 
 def mixed_schedule(rng, lay):
@@ -97,6 +108,11 @@ def one_run(prop, seed, i, k, acc, r01_open=False):
             acc["hazard_programs"] += 1
     run_digest = hashlib.sha256(json.dumps(prog, sort_keys=True).encode())
     nontrivial_any = False
+    for st_, o_ in zip(prog, g.ex.out):
+        if st_["op"] == "getitem" and st_.get("dst"):
+            acc["sel_steps"] += 1
+            if o_[0] == "ok":
+                acc["sel_steps_ok"] += 1
     for sa, ea, sb, eb in pairs:
         if ea is None:
             ea = run(prog, sa["schedule"], sa["width"])
@@ -110,13 +126,16 @@ def one_run(prop, seed, i, k, acc, r01_open=False):
         acc["steps_executed"] += len(prog) * (2 if prop == "C19" else 1)
         for kx, vx in eb.stats.items():
             acc["inj:" + kx] += vx
-        st = eb.stats
+        # Non-triviality is decided from the program text and the schedule (never from the library's internals,
+        # so that an implementation with eager selections is not mistaken for a vacuous run): the schedule acts
+        # on a variable that is *syntactically pending* at that point - created by a selection and not yet used
+        # by a step that certainly reads it.  For C19: some row selection / row access of the program returned
+        # normally under both widths.
         if prop == "C19":
-            nontrivial = acc["__idx32__"][0] > acc["__idx32_seen__"][0]
-            acc["__idx32_seen__"][0] = acc["__idx32__"][0]
+            nontrivial = any(st_["op"] == "getitem" and oa[0] == "ok" and ob[0] == "ok"
+                             for st_, oa, ob in zip(prog, ea.out, eb.out))
         else:
-            nontrivial = (st.get("freshen_on_pending", 0) + st.get("force_on_pending", 0)
-                          + st.get("obs_materialised", 0)) > 0
+            nontrivial = schedule_touches_pending(sb["schedule"], lay)
         ssig = sched_sig(sb["schedule"])
         acc["__distinct__"].add(_h(psig + "##" + ssig))
         if nontrivial:
@@ -232,14 +251,16 @@ ASSUMPTIONS = {
 RULES = {
     "C06": "case = (program generated by scouting from run seed) x (schedule: eager-fresh or random FRESHEN/FORCE "
            "placement); distinct = distinct (abstract program signature [step kinds, selector classes, chain depth, "
-           "dtype kinds, empty-row pattern], schedule signature); non-trivial = the schedule changed the hidden "
-           "state (pending view -> fresh contiguous array) of at least one variable in that execution",
+           "dtype kinds, empty-row pattern], schedule signature); non-trivial = the schedule re-freshens or forces at "
+           "least one variable that is syntactically pending at that point (created by a selection and not yet used "
+           "by a step that certainly reads it) - decided from program text and schedule, not from library internals",
     "C10": "case = (program) x (schedule of injected read-only observers / forced materialisations); distinct as "
-           "for C06 with the observer kinds as schedule signature; non-trivial = at least one injected read "
-           "materialised a pending selection (is_contigous flipped during the observer)",
+           "for C06 with the observer kinds as schedule signature; non-trivial = at least one injected read or forced "
+           "materialisation targets a variable that is syntactically pending at that point",
     "C19": "case = (program, schedule) executed under 64-bit and 32-bit index width; distinct = distinct (program "
-           "signature, schedule signature); non-trivial = the 32-bit execution went through the width-dependent "
-           "gather ViewBase._index_rows at least once",
+           "signature, schedule signature); non-trivial = some row selection / row access of the program returned "
+           "normally under both widths (the width-dependent gather; its call count on the 32-bit path is reported "
+           "separately as a probe)",
 }
 
 
@@ -255,6 +276,11 @@ def main(prop, tier, runs=None, k=None, write=True):
     payload = {"prop": prop, "seed": seed, "k": cfg["k"], "r01_open": r01_open}
     results = pool.run_chunks(explore_chunk, cfg["runs"], payload)
     tot, sets, lists = merge(results)
+    sel_total = tot.get("sel_steps", 0)
+    if sel_total and tot.get("sel_steps_ok", 0) < 0.3 * sel_total:
+        raise pool.HarnessFailure(f"vacuous exploration: only {tot.get('sel_steps_ok', 0)} of {sel_total} selection steps "
+                                  "returned normally in the reference executions - the workload does not reach the "
+                                  "behaviour under test")
     if len(sets["__distinct_nontrivial__"]) < 2:
         # e.g. a tree in which every selection raises: all histories are trivially equal.  That is not "held".
         raise pool.HarnessFailure("vacuous exploration: the scheduler never changed the hidden state of any array "
